@@ -23,7 +23,9 @@ Inductive act :=
 | ADropInst    (* SocketConnection.close: self.pyroInstances = {} *)
 | ACloseRes    (* SocketConnection.close: for rsc in self.tracked_resources: rsc.close() -- every element, whether or not
                   an individual close() raises: a raising close is that resource's one ResClose *)
-| AClearRes.   (* SocketConnection.close: self.tracked_resources.clear() *)
+| AClearRes    (* SocketConnection.close: self.tracked_resources.clear() *)
+| AGuardEnd.   (* structure marker, no effect of its own: end of a `try ... except Exception` (or suppress) block; if the user
+                  hook raised inside that block, everything between the hook and this marker has been skipped *)
 
 (* classes of exceptions that can leave Daemon.handleRequest *)
 Inductive exc := XClosed | XProtocol | XTimeout | XSecurity | XOther.
@@ -34,8 +36,12 @@ Record shape := {
   sh_ends : exc -> bool;          (* does this class, leaving handleRequest, end the connection's request loop *)
   sh_escapes_security : bool;     (* Daemon.handleRequest re-raises a SecurityError raised by the method *)
   sh_escapes_callback : bool;     (* ... and any exception of a @callback method *)
-  sh_idle_timeout : bool          (* is a merely idle connection subject to COMMTIMEOUT (thread: blocking recv; multiplex: no) *)
+  sh_idle_timeout : bool;         (* is a merely idle connection subject to COMMTIMEOUT (thread: blocking recv; multiplex: no) *)
+  sh_hook_raises : conn -> bool   (* environment, not structure: for which connections the user's clientDisconnect hook raises *)
 }.
+Definition with_hooks (sh : shape) (hk : conn -> bool) : shape :=
+  Build_shape (sh_cleanup sh) (sh_reject sh) (sh_ends sh) (sh_escapes_security sh) (sh_escapes_callback sh)
+              (sh_idle_timeout sh) hk.
 
 Record config := { cf_shape : shape; cf_pool : option nat (* worker pool size; None = no limit (multiplex) *) }.
 
@@ -128,6 +134,7 @@ Definition do_act (c : conn) (s : cst) (a : act) : cst * list out :=
   | ADropInst => (set_inst s false, [])
   | ACloseRes => (s, map (ResClose c) (c_tracked s))
   | AClearRes => (set_tracked s [], [])
+  | AGuardEnd => (s, [])
   end.
 Fixpoint run_acts (c : conn) (s : cst) (l : list act) : cst * list out :=
   match l with
@@ -136,10 +143,23 @@ Fixpoint run_acts (c : conn) (s : cst) (l : list act) : cst * list out :=
               let (s2, o2) := run_acts c s1 t in (s2, o1 ++ o2)
   end.
 
+(* the same sequence when the user hook may raise ([hr]): a raising hook transfers control to the end of the enclosing
+   guarded block, i.e. the actions up to the next [AGuardEnd] are skipped ([sk] = currently skipping) *)
+Fixpoint run_acts_h (hr sk : bool) (c : conn) (s : cst) (l : list act) : cst * list out :=
+  match l with
+  | [] => (s, [])
+  | AGuardEnd :: t => run_acts_h hr false c s t
+  | a :: t => if sk then run_acts_h hr true c s t
+              else let (s1, o1) := do_act c s a in
+                   let (s2, o2) := run_acts_h hr (match a with AHook => hr | _ => false end) c s1 t in (s2, o1 ++ o2)
+  end.
+Definition cleanup_run (sh : shape) (c : conn) (s : cst) : cst * list out :=
+  run_acts_h (sh_hook_raises sh c) false c s (sh_cleanup sh).
+
 (* the request loop of c is left: run the cleanup sequence, the connection is over *)
 Definition end_conn (sh : shape) (st : state) (c : conn) : state * list out :=
   if active (conns st c)
-  then let (s, o) := run_acts c (conns st c) (sh_cleanup sh) in (upd st c (set_ended s), o)
+  then let (s, o) := cleanup_run sh c (conns st c) in (upd st c (set_ended s), o)
   else (st, []).
 Fixpoint end_all (sh : shape) (st : state) (vs : list conn) : state * list out :=
   match vs with
@@ -237,13 +257,22 @@ Fixpoint res_auto (q : rq) (l : list act) : option rq :=
   end.
 Definition act_eqb (a b : act) : bool :=
   match a, b with
-  | AHook, AHook | ASlot, ASlot | ASock, ASock | ADropInst, ADropInst | ACloseRes, ACloseRes | AClearRes, AClearRes => true
+  | AHook, AHook | ASlot, ASlot | ASock, ASock | ADropInst, ADropInst | ACloseRes, ACloseRes | AClearRes, AClearRes
+  | AGuardEnd, AGuardEnd => true
   | _, _ => false
   end.
 Definition nacts (a : act) (l : list act) : nat := length (filter (act_eqb a) l).
 Definition acts_ok (l : list act) : bool :=
   (nacts AHook l =? 1) && (0 <? nacts ASlot l) && (0 <? nacts ASock l) && (0 <? nacts ADropInst l) &&
   match res_auto RFresh l with Some RCleared => true | _ => false end.
+(* release is not skipped when the hook raises: nothing but the end of the guarded block follows a hook inside it *)
+Fixpoint guard_ok_from (after_hook : bool) (l : list act) : bool :=
+  match l with
+  | [] => true
+  | AGuardEnd :: t => guard_ok_from false t
+  | AHook :: t => negb after_hook && guard_ok_from true t
+  | _ :: t => negb after_hook && guard_ok_from false t
+  end.
 Definition all_exc : list exc := [XClosed; XProtocol; XTimeout; XSecurity; XOther].
 Definition shape_ok (sh : shape) : bool :=
-  acts_ok (sh_cleanup sh) && forallb (sh_ends sh) all_exc && sh_escapes_security sh && sh_escapes_callback sh.
+  acts_ok (sh_cleanup sh) && guard_ok_from false (sh_cleanup sh) && forallb (sh_ends sh) all_exc && sh_escapes_security sh && sh_escapes_callback sh.
